@@ -255,6 +255,7 @@ func c17Name(c *core.Ctx, k *core.Case) {
 		ln, buf, ext, cs, ci, spare = int(e.GetLen()), e.Buffer, e.GetExt(), e.GetCodingScheme(), e.GetAddCI(), e.GetNumberOfSpareBitsInLastOctet()
 	}
 	c.Eval(1)
+	c.Hold(k, "nasConvert.NetworkNameToNas", buf)
 	which := []string{"Full", "Short"}[k.I[0]]
 	wantText := (7*n + 7) / 8
 	wantSpare := (8 - 7*n%8) % 8
